@@ -38,6 +38,7 @@ type PropSpec struct {
 	Extra     func(e *Engine) []*Obligation // further obligations decided outside the path executor (ALIAS, READS)
 	Pairs     bool                          // bounded stand-in: pairs of equivalent spellings (C08)
 	Crash     bool                          // bounded stand-in: crash corpus through the real entry points (C11)
+	Faults    bool                          // bounded stand-in: fault injection corpus (C12)
 }
 
 type KnownFinding struct {
@@ -95,7 +96,9 @@ func propSpecs() map[string]*PropSpec {
 			},
 			Decided: []string{"no panic (nil dereference, failed type assertion, index/slice bounds, nil-map write, division, overflow, negative Repeat count, template/regexp Must) in any non-generated function of internal/model, internal/parser, cmd", "termination of every loop and every recursive function (variants)", "supporting preconditions, loop invariants and postconditions the safety proofs rely on"},
 			OutOfReach: []string{"ANTLR runtime and generated parser (trusted w.r.t. grammar-derived tree contracts)", "cgo boundary, cobra dispatch, OS"}},
-		"C12": {ID: "C12", Kinds: []string{"POST", "PRE", "SAFE", "INV"}, FuncMatch: regexp.MustCompile(`internal/model\.|PacketDslVisitorImpl|parser\.ParseFile|cmd\.(Compile|Execute|init)`),
+		"C12": {ID: "C12", Faults: true,
+			Bounded: []string{"BOUNDED (not counted as proved): every fault class of the property injected at each site of a base program produces a diagnostic carrying the line of the offending declaration, and well-formed programs using every documented construct and option value produce none (real ParseFile)"},
+			Kinds: []string{"POST", "PRE", "SAFE", "INV"}, FuncMatch: regexp.MustCompile(`internal/model\.|PacketDslVisitorImpl|parser\.ParseFile|cmd\.(Compile|Execute|init)`),
 			Own:     func(o *Obligation) bool { return strings.Contains(o.Name, "C12:") },
 			Decided: []string{"D1 AddOption: unknown name / illegal value / duplicate => exactly one (at least one for illegal) new diagnostic carrying the declaration's line, accepted options stored without diagnostic", "D2 AddPacket: duplicate name, second root => one diagnostic with the packet's line and the model unchanged; otherwise stored in map and list, no diagnostic", "D3 AddMetaData: duplicate => one diagnostic with its line; otherwise stored", "D8 Compile: a parse error or any model diagnostic => non-nil error, no file-system effect, WriteCodeToFile never called"},
 			OutOfReach: []string{"text of ANTLR's own syntax messages", "completeness over all fault classes inside the visitor (see evidence: which visitor-level clauses are under contract)"}},
@@ -217,6 +220,8 @@ func runProperty(e *Engine, spec *PropSpec, tier string) *propResult {
 	budget := 10 * time.Second
 	if tier == "thorough" {
 		budget = 60 * time.Second
+		e.cfg.CrossCheck = true
+		thoroughTier = true
 	}
 	e.discharge(budget, 16)
 	for _, n := range e.oblOrder {
@@ -390,7 +395,7 @@ func report(e *Engine, spec *PropSpec, r *propResult, tier string, seed int, wal
 				lines = append(lines, fmt.Sprintf("VIOLATION property=%s replay=%s", spec.ID, p))
 			}
 			standinInfo = map[string]interface{}{"corpus_inputs": standinCount, "formatted": len(standinOut["formatted"]), "syntax_errors": len(standinOut["syntax-error"]), "failing_pairs": len(names), "known": nKnown, "classes": spec.Standin,
-				"bound": "corpus enumerated by goverif/standin.go from grammar/PacketDsl.g4 (every alternative / optional element toggled, <=3 rounds of choice-point discovery), key lists of length 1..16, comments at <=4 token boundaries per sentence, 2 whitespace re-layouts per input"}
+				"bound": "corpus enumerated by goverif/standin.go from grammar/PacketDsl.g4 (every alternative / optional element toggled, <=3 rounds of choice-point discovery), key lists of length 1..16, comments at <=4 token boundaries per sentence (quick) / at every token boundary (thorough), 2 whitespace re-layouts per input"}
 		}
 	}
 	if spec.Crash {
@@ -426,6 +431,39 @@ func report(e *Engine, spec *PropSpec, r *propResult, tier string, seed int, wal
 		}
 		standinInfo = map[string]interface{}{"corpus_inputs": crashCorpusSize, "outcomes": len(outs), "crashing_inputs": nCrash, "known": nKnown,
 			"bound": "grammar-derived sentences (every alternative / optional element toggled) with and without a prelude of two packets, plus hand-written fault templates (duplicates, dangling references, cycles also through inline objects, extreme sizes, syntax errors), each run through FormatPacketDsl, ParseFile and the six generators of the real code in a subprocess"}
+	}
+	if spec.Faults {
+		e.runFaults()
+		if faultsErr != nil {
+			violations++
+			p := filepath.Join(outRoot, "replays", spec.ID, "fault-harness.json")
+			writeJSON(p, map[string]interface{}{"property": spec.ID, "obligation": "BOUNDED:" + spec.ID + ":fault:harness", "verifier_output": faultsErr.Error()})
+			lines = append(lines, fmt.Sprintf("VIOLATION property=%s replay=%s no-failing-input-found", spec.ID, p))
+		}
+		var names []string
+		for n := range faultsFail {
+			names = append(names, n)
+		}
+		sort.Strings(names)
+		nKnown := 0
+		for _, n := range names {
+			if k, ok := known[n]; ok {
+				nKnown++
+				knownHit = append(knownHit, n)
+				lines = append(lines, fmt.Sprintf("KNOWN-FINDING: property=%s %s %s", spec.ID, n, k.What))
+				continue
+			}
+			violations++
+			p := filepath.Join(outRoot, "replays", spec.ID, sanitize(n)+".reproduced.json")
+			rec := faultsFail[n]
+			rec["property"] = spec.ID
+			rec["obligation"] = n
+			rec["entry"] = "parser.ParseFile (real code, go test -overlay)"
+			writeJSON(p, rec)
+			lines = append(lines, fmt.Sprintf("VIOLATION property=%s replay=%s", spec.ID, p))
+		}
+		standinInfo = map[string]interface{}{"cases": faultsCount, "cases_run": faultsDone, "failing": len(names), "known": nKnown,
+			"bound": "fault cases enumerated by goverif/spell.go: each fault class of the property injected at each site of a 28-line base program where it can occur (top level, other packet, inline object, key list, both attribute placements), plus well-formed programs using every documented option value"}
 	}
 	if spec.Pairs {
 		e.runSpellPairs()
@@ -506,6 +544,7 @@ func report(e *Engine, spec *PropSpec, r *propResult, tier string, seed int, wal
 		"by_backend":               byBackend,
 		"solver_secs_sum":          solverSecs,
 		"solver_secs_max":          maxSecs,
+		"slowest":                  slowest(r.owned, 8),
 		"functions_verified":       len(r.reports),
 		"functions_with_written_contract": nContract,
 		"functions":                funcs,
@@ -802,4 +841,18 @@ func checkEmit(prop, tier string, seed int, updateLedger bool) int {
 		return 1
 	}
 	return 0
+}
+
+// slowest: the n obligations with the largest solver time (to watch for queries near the budget).
+func slowest(obls []*Obligation, n int) []map[string]interface{} {
+	cp := append([]*Obligation(nil), obls...)
+	sort.Slice(cp, func(i, j int) bool { return cp[i].Secs > cp[j].Secs })
+	var out []map[string]interface{}
+	for i := 0; i < n && i < len(cp); i++ {
+		if cp[i].Secs < 0.5 {
+			break
+		}
+		out = append(out, map[string]interface{}{"obligation": cp[i].Name, "secs": cp[i].Secs, "backend": cp[i].Backend, "instances": len(cp[i].Instances)})
+	}
+	return out
 }
